@@ -225,6 +225,20 @@ def askValidate (w : W) (h v : Nat) (block : Option Block) (hash : Nat) : W × B
       (w, good && !ctxDone w id)
     | _ => (w.emit (.goPanic "missing SPI answer"), false)
 
+/-- `RequestNewBlockProposal` with its context: the block if it may be proposed (the context was
+issued and is still live after the call) -/
+def askProposal (w : W) (h v : Nat) : W × Option Block :=
+  let (w, ctx) := ctxFor w h v
+  match ctx with
+  | none => (w, none)
+  | some id =>
+    let w := w.emit (.callRequest h)
+    match w.spi with
+    | .proposal b cancelDuring :: rest =>
+      let w := cancelMeanwhile { w with spi := rest } cancelDuring
+      (w, if ctxDone w id then none else some b)
+    | _ => (w.emit (.goPanic "missing SPI answer"), none)
+
 def handlePrePrepare (w : W) (ppm : PPMsg) : W :=
   if !validatePreprepare w.n ppm then w
   else
@@ -345,16 +359,10 @@ def onElectedByViewChange (w : W) (view : Nat) (vcs : List VCMsg) : W :=
     match latestBlockFromVCs vcs with
     | some (b, hash) => finish w b hash
     | none =>
-      let (w, ctx) := ctxFor w h view
-      match ctx with
+      let (w, ob) := askProposal w h view
+      match ob with
+      | some b => finish w b b.hash
       | none => w
-      | some id =>
-        let w := w.emit (.callRequest h)
-        match w.spi with
-        | .proposal b cancelDuring :: rest =>
-          let w := cancelMeanwhile { w with spi := rest } cancelDuring
-          if ctxDone w id then w else finish w b b.hash
-        | _ => w.emit (.goPanic "missing SPI answer")
 
 def checkElected (w : W) (h view : Nat) : W :=
   if w.n.latestNV ≥ view then w
@@ -405,6 +413,17 @@ def validateVotes (n : Node) (targetHeight targetView : Nat) (votes : List VCCon
 def latestVote (votes : List VCContent) : Option VCContent :=
   maxBy (fun (v : VCContent) => proofView v.header.proof) (votes.filter (fun v => v.header.proof.isSome))
 
+/-- the lock branch of `HandleNewView`: when some vote carries a proof, the highest one must be
+valid, the attached block must commit to the proven hash, and the embedded proposal must be signed
+over that same hash -/
+def lockOk (n : Node) (nvm : NVMsg) : Bool :=
+  match latestVote nvm.header.votes with
+  | none => true
+  | some v =>
+    isViewChangeValid n v
+    && commitmentOk nvm.block (proofHash v.header.proof)
+    && nvm.pp.header.hash == proofHash v.header.proof
+
 def handleNewView (w : W) (nvm : NVMsg) : W :=
   let hd := nvm.header
   if hd.mtype != tNV then w
@@ -416,14 +435,7 @@ def handleNewView (w : W) (nvm : NVMsg) : W :=
   else if nvm.pp.header.height != hd.height then w
   else
     let lv := latestVote hd.votes
-    let lockOk : Bool :=
-      match lv with
-      | none => true
-      | some v =>
-        isViewChangeValid w.n v
-        && commitmentOk nvm.block (proofHash v.header.proof)
-        && nvm.pp.header.hash == proofHash v.header.proof
-    if !lockOk then w
+    if !lockOk w.n nvm then w
     else
       let ppm : PPMsg := ⟨nvm.pp, nvm.block⟩
       let (w, ok) :=
@@ -446,21 +458,13 @@ def startTerm (w : W) (canBeFirstLeader : Bool) : W :=
   else if w.n.cfg.height > 1 && !canBeFirstLeader then w
   else if !isLeader w.n.cfg w.n.cfg.me 0 then w
   else
-    let h := w.n.cfg.height
-    let (w, ctx) := ctxFor w h 0
-    match ctx with
+    let (w, ob) := askProposal w w.n.cfg.height 0
+    match ob with
     | none => w
-    | some id =>
-      let w := w.emit (.callRequest h)
-      match w.spi with
-      | .proposal b cancelDuring :: rest =>
-        let w := cancelMeanwhile { w with spi := rest } cancelDuring
-        if ctxDone w id then w
-        else
-          let ppc : PPContent := ⟨mkRef w.n.cfg tPP 0 b.hash, mySig w.n.cfg⟩
-          let w := { w with n := { w.n with store := w.n.store.storePP ⟨ppc, some b⟩ } }
-          w.emit (.send (others w.n.cfg) (.preprepare ⟨ppc, some b⟩))
-      | _ => w.emit (.goPanic "missing SPI answer")
+    | some b =>
+      let ppc : PPContent := ⟨mkRef w.n.cfg tPP 0 b.hash, mySig w.n.cfg⟩
+      let w := { w with n := { w.n with store := w.n.store.storePP ⟨ppc, some b⟩ } }
+      w.emit (.send (others w.n.cfg) (.preprepare ⟨ppc, some b⟩))
 
 inductive Event where
   | start (canBeFirstLeader : Bool)
